@@ -2,8 +2,11 @@
 //!   fakechrony --script answer:4,silent:8,gone:6,answer:3,leap3:3 [--log file]
 //! Phases (seconds): answer (synchronised tracking replies), leap3 (replies with leap status 3), silent (socket bound,
 //! no reply), gone (socket removed). Writes one JSON line per phase start and per answered request to the log.
+//! Every answer carries the next entry of a table of (offset, root delay, root dispersion) wire floats, so that
+//! consecutive answers differ; `--refid <u32>` sets the reference id, `--delay-ms n` delays each reply. The log
+//! holds the wire values (coefficient, power of two) and CLOCK_MONOTONIC readings at request receipt and at send.
 use bytes::BytesMut;
-use chrony_candm::common::ChronyAddr;
+use chrony_candm::common::{ChronyAddr, ChronyFloat};
 use chrony_candm::reply::{Reply, ReplyBody, Status, Tracking};
 use chrony_candm::request::Request;
 use std::io::Write;
@@ -12,11 +15,37 @@ use std::time::{Duration, Instant, SystemTime};
 
 const SOCK: &str = "/var/run/chrony/chronyd.sock";
 
+/// chrony wire float coef * 2^e (e = wire exponent - 25)
+fn cf(coef: i32, e: i32) -> ChronyFloat {
+    let exp = e + 25;
+    assert!((-64..=63).contains(&exp) && (-(1 << 24)..(1 << 24)).contains(&coef));
+    let w: u32 = (((exp as u32) & 0x7f) << 25) | ((coef as u32) & 0x01ff_ffff);
+    unsafe { std::mem::transmute(w) }
+}
+fn mono_ns() -> i128 {
+    let mut ts = libc::timespec { tv_sec: 0, tv_nsec: 0 };
+    unsafe { libc::clock_gettime(libc::CLOCK_MONOTONIC, &mut ts) };
+    ts.tv_sec as i128 * 1_000_000_000 + ts.tv_nsec as i128
+}
+/// (offset, delay, dispersion) as (coefficient, power of two); offsets of both signs
+const TABLE: [[(i32, i32); 3]; 6] = [
+    [(-214748, -30), (1073742, -30), (536871, -30)],   // -0.0002 s, 0.001 s, 0.0005 s
+    [(7340032, -30), (107374, -30), (21475, -30)],     // +6.8 ms, 100 us, 20 us
+    [(-3, -12), (5, -9), (1, -11)],
+    [(12345, -24), (1, -10), (777, -20)],
+    [(-16777215, -33), (3, -8), (0, -10)],
+    [(0, -10), (8388608, -33), (12345, -25)],
+];
+
 fn main() {
     let args: Vec<String> = std::env::args().collect();
     let get = |n: &str| args.iter().position(|a| a == n).and_then(|i| args.get(i + 1).cloned());
     let script = get("--script").unwrap_or("answer:5".into());
     let mut log = get("--log").map(|p| std::fs::File::create(p).unwrap());
+    let refid: u32 = get("--refid").map(|s| s.parse().unwrap()).unwrap_or(0x7f7f0101);
+    let delay_ms: u64 = get("--delay-ms").map(|s| s.parse().unwrap()).unwrap_or(0);
+    let vary = args.iter().any(|a| a == "--vary");
+    let mut nans = 0usize;
     let t0 = Instant::now();
     let mut emit = |s: String| {
         if let Some(f) = log.as_mut() {
@@ -41,25 +70,27 @@ fn main() {
         let mut buf = [0u8; 2048];
         while start.elapsed().as_secs_f64() < secs {
             let Ok((n, from)) = sock.recv_from(&mut buf) else { continue };
+            let req_ns = mono_ns();
             if mode == "silent" {
                 continue;
             }
             let mut b = BytesMut::from(&buf[..n]);
             let Ok(req) = Request::deserialize(&mut b) else { continue };
+            let row = if vary { TABLE[nans % TABLE.len()] } else { TABLE[0] };
             let t = Tracking {
-                ref_id: 0x7f7f0101,
+                ref_id: refid,
                 ip_addr: ChronyAddr::default(),
                 stratum: 2,
                 leap_status: if mode == "leap3" { 3 } else { 0 },
                 ref_time: SystemTime::now(),
-                current_correction: (-0.0002).into(),
+                current_correction: cf(row[0].0, row[0].1),
                 last_offset: 0.0.into(),
                 rms_offset: 0.0.into(),
                 freq_ppm: 0.0.into(),
                 resid_freq_ppm: 0.0.into(),
                 skew_ppm: 0.0.into(),
-                root_delay: 0.001.into(),
-                root_dispersion: 0.0005.into(),
+                root_delay: cf(row[1].0, row[1].1),
+                root_dispersion: cf(row[2].0, row[2].1),
                 last_update_interval: 16.0.into(),
             };
             // "badreply": a well-formed reply that is not tracking data (status only): chronyd is up but of no use
@@ -70,9 +101,16 @@ fn main() {
             };
             let mut out = BytesMut::with_capacity(reply.length());
             reply.serialize(&mut out);
+            if delay_ms > 0 {
+                std::thread::sleep(Duration::from_millis(delay_ms));
+            }
             if let Some(p) = from.as_pathname() {
                 if sock.send_to(&out, p).is_ok() && mode != "badreply" {
-                    emit(format!("{{\"ev\":\"answered\",\"mode\":\"{mode}\",\"t_ms\":{}}}", t0.elapsed().as_millis()));
+                    nans += 1;
+                    emit(format!(
+                        "{{\"ev\":\"answered\",\"mode\":\"{mode}\",\"t_ms\":{},\"req_ns\":{},\"ans_ns\":{},\"corr\":[{},{}],\"delay\":[{},{}],\"disp\":[{},{}],\"ref_id\":{}}}",
+                        t0.elapsed().as_millis(), req_ns, mono_ns(), row[0].0, row[0].1, row[1].0, row[1].1, row[2].0, row[2].1, refid
+                    ));
                 }
             }
         }
